@@ -104,3 +104,82 @@ def h_short_time(h: int, m: int, s: int, has_min: bool, has_sec: bool):
     assert digits.same(digits.decode(DateTimeFormatUtil.format_time(t)), [(h, 2), ':', (m, 2), ':', (s, 2)])
     assert digits.same(digits.decode(DateTimeFormatUtil.luis_date_time(t)),
                        [(2000, 4), '-', (1, 2), '-', (1, 2), 'T', (h, 2), ':', (m, 2), ':', (s, 2)])
+
+
+# ---- O7.4: <date> at <time>: BaseDateTimeParser.merge_date_and_time --------------------------------------------------
+from recognizers_text.extractor import ExtractResult  # noqa: E402
+from recognizers_date_time.date_time.parsers import DateTimeParseResult  # noqa: E402
+from recognizers_date_time.date_time.utilities import DateTimeResolutionResult  # noqa: E402
+
+DTP = CFG.date_time_parser
+env.assert_repo(type(DTP))
+TAIL = sl('tail', '')            # '', ' in the afternoon', ' in the morning'
+SRC_DT = 'dddd tttt' + TAIL
+
+
+class _FixedExtractor:
+    def __init__(self, start, length, typ):
+        self.s, self.l, self.t = start, length, typ
+
+    def extract(self, source, reference=None):
+        er = ExtractResult()
+        er.start, er.length, er.text, er.type = self.s, self.l, source[self.s:self.s + self.l], self.t
+        return [er]
+
+
+class _FixedParser:
+    def __init__(self):
+        self.value, self.timex = None, ''
+
+    def parse(self, er, reference=None):
+        pr = DateTimeParseResult(er)
+        pr.value, pr.timex_str = self.value, self.timex
+        return pr
+
+
+_DPS, _TPS = _FixedParser(), _FixedParser()
+DTP.config._date_extractor = _FixedExtractor(0, 4, Constants.SYS_DATETIME_DATE)
+DTP.config._time_extractor = _FixedExtractor(5, 4, Constants.SYS_DATETIME_TIME)
+DTP.config._date_parser = _DPS
+DTP.config._time_parser = _TPS
+
+
+def h_date_and_time(y: int, mo: int, d: int, h: int, m: int, s: int):
+    assert 1900 <= y <= 2099 and 1 <= mo <= 12 and 1 <= d <= 28 and 0 <= m <= 59 and 0 <= s <= 59
+    assert (0 <= h <= 23) if DESC == '' else (1 <= h <= 12)
+    digits.reset()
+    ref = datetime(2000, 1, 1)
+    # the time is what the real time parser produces for these groups (O7.2 checks that step on its own)
+    g = {'hour': digits.ph(h, 2), 'desc': DESC}
+    if HAS_MIN:
+        g['min'] = digits.ph(m, 2)
+    if HAS_SEC:
+        g['sec'] = digits.ph(s, 2)
+    tv = TP.match_to_time(FakeMatch(g), ref)
+    assert tv.success
+    _TPS.value, _TPS.timex = tv, tv.timex
+    dv = DateTimeResolutionResult()
+    dv.success = True
+    dv.timex = DateTimeFormatUtil.luis_date(y, mo, d)
+    dv.future_value = dv.past_value = datetime(y, mo, d)
+    _DPS.value, _DPS.timex = dv, dv.timex
+    r = DTP.merge_date_and_time(SRC_DT, ref)
+    assert r.success
+    eh = _expected_hour(h)
+    if 'afternoon' in TAIL and eh < 12:
+        eh += 12
+    elif 'morning' in TAIL and eh >= 12:
+        eh -= 12
+    em = m if HAS_MIN else 0
+    es = s if HAS_SEC else 0
+    want = [(y, 4), '-', (mo, 2), '-', (d, 2), 'T', (eh, 2)]
+    if HAS_MIN:
+        want += [':', (em, 2)]
+    if HAS_SEC:
+        want += [':', (es, 2)]
+    assert digits.same(digits.decode(r.timex), want)
+    for v in (r.future_value, r.past_value):
+        assert (v.year, v.month, v.day, v.hour, v.minute, v.second) == (y, mo, d, eh, em, es)
+    # two readings twelve hours apart exactly when the clock time itself was ambiguous (1..12 without am/pm)
+    ambiguous = DESC == '' and 1 <= _expected_hour(h) <= 12 and eh <= 12
+    assert (r.comment == 'ampm') == ambiguous
